@@ -178,6 +178,15 @@ def _work_text(task) -> core.Part:
             p.add("nontrivial")
             if e:
                 _report(p, items, e, f"text {t!r:.20} at {obis}")
+    for t in cosemx.edge_texts():
+        items = [("0.0.96.1.7.255", ("str", t)), ("1.0.1.7.0.255", ("num", "u32", 5, 0, W)), ("1.1.0.2.129.255", ("str", t[::-1])), ("0.0.96.1.0.255", ("str", t + "7"))]
+        e = check_items(items)
+        p.add("evaluations")
+        p.add("nontrivial")
+        if e:
+            _report(p, items, e, f"text {t!r}")
+            if p.full("aidon"):
+                break
     # unknown OBIS codes decode under their C.D.E string
     for obis in ("1.0.9.7.0.255", "0.0.96.3.10.255", "1.0.31.7.1.255", "1.0.1.8.1.255"):
         items = [(obis, ("num", "u32", 7, 0, W))]
